@@ -45,6 +45,37 @@ CLAIMS.update({
    tech="TLA+ table/state machine enumerated by TLC, every row and behaviour replayed into the real code, recorded vectors and traces judged by TLC", ref="DESIGN.md section 7 C20"),
 })
 
+CLAIMS.update({
+ "C02": dict(cat="exploration",
+   text="Cql.tla (on BigNum.tla) defines Enc/Dec for the 21 scalar types and list/set/map (both framings)/tuple/UDT, and transcribes the documented conversion tables (Supported, Target, FitsKind). TLC generates every bounded (CQL type, source Go kind, target Go kind, boundary value, protocol) case with the expected outcome (error allowed / value every fitting target must read back, null vs empty vs zero kept apart, recursively inside collections); the harness runs Marshal then Unmarshal on the real code and TLC judges seeded random round-trip vectors recorded from the real code.",
+   note="Bounded enumeration plus random vectors, specification as oracle (not a proof); standard-library conversions in the harness are trusted; outside the claim: null elements in protocol <=2 collections, Marshaler/UDTMarshaler implementations, nested interface{} targets, dates beyond the 32-bit day range.",
+   tech="TLA+ reference definitions evaluated by TLC as oracle: TLC-generated round-trip cases replayed into Marshal/Unmarshal + TLC validation of recorded vectors", ref="DESIGN.md section 7 C12 / C02"),
+ "C03": dict(cat="exploration",
+   text="WireReq.tla is a total reference decoder (and encoder) of request frames written from the native protocol specifications v1-v5 (v5 as implemented: legacy header with the beta flag, v5 body layouts). TLC enumerates kinds x versions x optional-parameter subsets x value shapes (null/unset/named) x header options x stream ids; each case is built by the driver's real frame builders and TLC decides DecodeRequest(bytes) = logical request (header version, stream, opcode, length; every field), plus seeded random requests, a sample through the real Conn.exec/startup path, and the 65535/65536 boundaries.",
+   note="Specification as oracle over enumerated and random requests; the count-versus-entries summary at the 65535 boundary is produced by a small Go reader (trusted, corroborated by the TLC decoder on wrapped cases); compression uses a stand-in codec here (C18 covers the real ones).",
+   tech="TLA+ reference decoder evaluated by TLC on frames recorded from the real builders; TLC-generated case enumeration replayed into the real code", ref="DESIGN.md section 7 C03"),
+ "C04": dict(cat="exploration",
+   text="WireResp.tla is a reference encoder of response frames for protocol v1-v5 (all kinds, every ERROR code, RESULT metadata flag combinations, recursive type descriptors, header-flag prefixes) together with ExpView, the view an application must get. TLC generates the cases (BFS families plus -simulate for deeper type trees); the bytes are fed to the real framer and through a live Session against the scripted node (also snappy-compressed and with skipped metadata), the driver's complete view (fields, columns, types, paging state, prepared id, pk indexes, warnings, payload, trace id, every cell through Scan/MapScan/SliceMap/Scanner, bytes left after parsing) is recorded and TLC compares it with the logical record.",
+   note="Specification as oracle over generated frames; v5 as the driver implements it (no segments, no result_metadata_id); MapScan/SliceMap compared for a handful of simple column types; compression by the driver's own SnappyCompressor.",
+   tech="TLA+ reference encoder as generator and expected view; recorded driver views judged by TLC", ref="DESIGN.md section 7 C04"),
+ "C10": dict(cat="model_checking",
+   text="Topology.tla states Cassandra's placement (primary = owner of (previous, token], SimpleStrategy next distinct nodes, NetworkTopologyStrategy.calculateNaturalReplicas per-DC counts preferring unused racks) and the C10 predicates. TLC enumerates every bounded ring (nodes x vnodes x DCs x racks x replication factors incl. 0, larger than the DC, unknown DCs) as one state per case with the expected replicas for every ring position and lookup-token class; each case is executed on the real tokenRing / strategies / replicasFor (panics recorded) and seeded random larger rings recorded from the real code are judged by TLC predicates (same set, primary first, no duplicates, size bound, no panic).",
+   note="Exhaustive within the stated ring bounds (<=4-5 nodes, <=2-3 tokens per node, 2 DCs, 2-3 racks) plus random rings up to 12 nodes; nodes without tokens are not generated.",
+   tech="TLA+ reference placement; TLC enumeration of all bounded rings replayed into the real code; TLC validation of recorded vectors", ref="DESIGN.md section 7 C10"),
+ "C11": dict(cat="model_checking",
+   text="Policies.tla states the property predicates on an offered host sequence (finite, only up hosts, no duplicates, every known up host, tier-monotone, token-aware: nearest-tier up replicas first - primary first unless shuffling - then farther-tier replicas with non-local fallback, then the rest; rotation over successive picks) using Topology.tla's reference placement. TLC enumerates bounded cluster states x 15 policy/option combinations x routing-token classes; the real policy objects are driven (successive picks, add/remove/up/down histories, a concurrent safety run) and TLC evaluates the predicates on the REAL sequences; a differing but admissible order is drift only.",
+   note="Bounded clusters (<=5 hosts, 2 DCs x 2 racks); where keyspace metadata is unavailable both readings of 'replica' are accepted; HostPoolHostPolicy is not covered; the concurrent run checks safety only (no panic, no nil host) on sampled schedules.",
+   tech="TLA+ predicates evaluated by TLC on host sequences recorded from the real policies; TLC enumeration of bounded cluster states replayed into the real code", ref="DESIGN.md section 7 C11"),
+ "C12": dict(cat="exploration",
+   text="Cql.tla (on BigNum.tla, self-tested by ASSUME) defines the native-protocol encoding of every CQL type byte for byte (fixed widths, minimal varint, decimal, date with floor, time, timestamp, duration vints, inet, both collection framings, tuple/UDT with -1 for null). TLC generates boundary cases (every width's min/max/+-1, sign-extension edges, 2^63, 2^64-1, big varints/decimals, NaN payloads, pre-epoch dates, vint length boundaries, null/empty/zero, nesting <= 2, protocol 2 and 4) with the expected bytes or the expected refusal; Marshal/Unmarshal of the real code are run on them, and seeded random vectors recorded from the real code are judged by TLC in both directions (bytes = Enc(v); Dec(bytes) = v).",
+   note="Bounded enumeration plus random vectors, specification as oracle (not a proof); the harness maps abstract values to Go values with the standard library (trusted).",
+   tech="TLA+ reference encodings evaluated by TLC as oracle in both directions; TLC-generated boundary cases replayed into the real code", ref="DESIGN.md section 7 C12 / C02"),
+ "C15": dict(cat="model_checking",
+   text="Paging.tla models paged iteration (ConsumeRow, PrefetchTrigger, FetchOnce, NodePage ok/err, SwitchPage, End) and states the property as verdict operators: consumed rows = concatenation of the pages in order, request k carries exactly page k-1's state and is otherwise identical, no request after the last page, each page once, a failed fetch surfaces as the error, a caller-supplied state fetches exactly one page and exposes the next state. TLC checks 35k scenarios (<=4 pages, <=3 rows incl. empty pages, 4 prefetch ratios, 4 consumers, failure point, auto/manual) with termination under fairness, generates every case with its expectation, the cases run through real Sessions against the scripted node (prepared or not, skip-metadata or not, prefetch racing the consumer), and every recorded trace is validated by TLC step by step.",
+   note="Protocol 4 only; a failed fetch is an ERROR response (connection loss during a fetch is C06/C13 territory); prefetch timing differences are drift, not violations; racing is timing-based (no gate inside nextIter.fetch).",
+   tech="TLA+ model checked by TLC; TLC-generated cases replayed through real Sessions; recorded traces validated by TLC", ref="DESIGN.md section 7 C15"),
+})
+
 NA = {}
 DEFAULT_NA = "machinery under construction in this round; not yet claimed"
 
